@@ -310,13 +310,18 @@ func runC16(t *testing.T, sched simrt.Schedule, prog c16Prog) ([]Violation, RunS
 		var linkedNow func(id types.Uid) bool
 		var pinCheck func(id types.Uid) string
 		var faultNote func(kind string) string
+		failOf := map[types.Uid]map[string]bool{} // upload -> store methods that failed inside the action that listed it
 		// every completed upload that the ledger says must exist does, with its bytes
 		verifyStore := func(where string, mayBeGone map[types.Uid]bool) {
 			for _, u := range append([]*c16Up{}, ups...) {
 				row := w.Disk.FileUploads[u.ID]
 				data, err := os.ReadFile(u.Location)
 				if why := pinCheck(u.ID); why != "" && (row == nil || err != nil) {
-					out = append(out, vio("C16", "pinned-file-lost "+why+faultNote(why), "%s: upload %s is still the %s of something that exists but is gone (%v old): record=%v file=%v", where, u.URL, why, w.rt.Now()-u.At, row != nil, err == nil))
+					note := ""
+					if len(failOf[u.ID]) > 0 {
+						note = " after-failed:" + strings.Join(keys(failOf[u.ID]), "+")
+					}
+					out = append(out, vio("C16", "pinned-file-lost "+why+note, "%s: upload %s is still the %s of something that exists but is gone (%v old): record=%v file=%v", where, u.URL, why, w.rt.Now()-u.At, row != nil, err == nil))
 					dropUp(u.ID)
 					continue
 				}
@@ -636,6 +641,17 @@ func runC16(t *testing.T, sched simrt.Schedule, prog c16Prog) ([]Violation, RunS
 				w.rt.Run(500*time.Millisecond, nil)
 				w.Enabled(true)
 				faulted := fired(nlog)
+				if sx := c.Sents[len(c.Sents)-1]; faulted && sx.Code >= 200 && sx.Code < 300 {
+					// the request took effect although a store call inside it failed
+					for _, sc2 := range simStore.Log[nlog:] {
+						if sc2.Err == errInjected.Error() {
+							if failOf[target.ID] == nil {
+								failOf[target.ID] = map[string]bool{}
+							}
+							failOf[target.ID][sc2.Method] = true
+						}
+					}
+				}
 				s := c.Sents[len(c.Sents)-1]
 				if a.Kind == "pubatt" && s.Code >= 200 && s.Code < 300 && w.Disk.FileUploads[target.ID] != nil {
 					msgPins[target.ID]++
